@@ -170,6 +170,8 @@ class Peer(Actor):
             return self.w.now >= self._sleep_until
         if k == 'call':
             return True
+        if k == 'at':
+            return self.w.now >= op[1]
         if self.closed or st is None:
             # the connection is gone: remaining ops are skipped one per step
             return True
@@ -199,8 +201,11 @@ class Peer(Actor):
         return self._read_ready() or self._script_ready()
 
     def next_deadline(self) -> Optional[float]:
-        if self._sleep_until is not None and self._op() is not None and self._op()[0] == 'sleep':
+        op = self._op()
+        if self._sleep_until is not None and op is not None and op[0] == 'sleep':
             return self._sleep_until
+        if op is not None and op[0] == 'at' and self.w.now < op[1]:
+            return op[1]
         return None
 
     # -- steps ------------------------------------------------------------------
@@ -278,6 +283,9 @@ class Peer(Actor):
             return
         if k == 'call':
             op[1](self)
+            self._advance()
+            return
+        if k == 'at':
             self._advance()
             return
         if self.closed or st is None:
